@@ -7,6 +7,8 @@ import os
 HERE = os.path.dirname(os.path.dirname(os.path.abspath(__file__)))
 
 # id -> (category, technique, level text, level note (trusted base / assumptions), design ref, engine)
+NO_THOROUGH = {"C30"}
+
 CLAIMED = {
     "C01": ("proof",
             "per-representation contracts on the named gate classes, decided on the real methods with exact symbolic "
@@ -460,8 +462,13 @@ CLAIMED = {
             "For every backend (Serial, ThreadPool, ProcPool, MPPool), worker count and persist flag, all argument VALUES and "
             "the enumerated length shapes (empty, single, many, uneven, 1-3 sequences; starmap data of 0-3 tuples): "
             "submit(fn,*a,**kw) == fn(*a,**kw), map == list(map(partial(fn,**kw), *seqs)), starmap == "
-            "list(itertools.starmap(...)), in input order.",
-            "Size-bounded in arity / length shapes; the scheduling quantifier is discharged by ASSUMING the stdlib contracts "
+            "list(itertools.starmap(...)), in input order. Multi-call reading: the pool stubs carry a ghost closed flag "
+            "(a closed pool rejects work as the stdlib does); every map / starmap / submit on a persistent executor leaves the "
+            "backend open (the shutdown function runs exactly when not persistent), 20 two-call histories per backend return "
+            "what the builtins return, shutdown / __exit__ close exactly a persistent backend; 8 bounded native five-call "
+            "histories on real executors.",
+            "Size-bounded in arity / length shapes; the constructor invariant (persist => an open backend object) is taken "
+            "as established by PyNativeExec.__init__ (not executed); the scheduling quantifier is discharged by ASSUMING the stdlib contracts "
             "(Executor.map / Pool.map / starmap / apply return results in input order) - schedules are not explored. F10, F10b, "
             "F22 fixed in repo; F23 (MPPoolExec.map rejects uneven lengths, documented precondition) open.",
             "DESIGN.md 4 C65", "E1"),
@@ -733,10 +740,15 @@ def main():
         pid = p["id"]
         if pid in CLAIMED and os.path.exists(os.path.join(HERE, "contracts", f"{pid}.py")):
             cat, tech, text, note, ref, eng = CLAIMED[pid]
-            checks.append(dict(
+            entry = dict(
                 property_id=pid, quick_cmd=f"./check {pid} --tier quick", thorough_cmd=f"./check {pid} --tier thorough",
                 evidence_file=f"evidence/{pid}.json", replay_cmd_template=f"./check {pid} --replay {{path}}",
-                engine=eng, level_claimed=dict(category=cat, text=text, design_ref=ref), level_note=note, technique=tech))
+                engine=eng, level_claimed=dict(category=cat, text=text, design_ref=ref), level_note=note, technique=tech)
+            if pid in NO_THOROUGH:
+                # the thorough tier of this check was not seen to finish within 18 minutes on the loaded build machine: not registered
+                del entry["thorough_cmd"]
+                entry["level_note"] = note + " The thorough tier (more shapes, string labels) exists in the contract file but is not registered: it did not finish within 18 minutes on the build machine."
+            checks.append(entry)
         else:
             c = claims.get(pid, {})
             if c.get("status") == "not_applicable":
